@@ -8,6 +8,7 @@ import Gofasta.Driver.Sam
 import Gofasta.Driver.SamVar
 import Gofasta.Driver.C08
 import Gofasta.Driver.Fault
+import Gofasta.Driver.Sched
 import Gofasta.Driver.Csv
 import Gofasta.Driver.SamText
 import Gofasta.Driver.GffText
@@ -31,6 +32,7 @@ def dispatch (c : Case) : Verdict :=
   | "FAULT" => runFault c
   | "EXIT" => runExit c
   | "REORD" => runReord c
+  | "SCHED" => runSched c
   | "CSV" => runCsv c
   | "SAMTXT" => runSamText c
   | "GFFTXT" => runGffText c
